@@ -150,7 +150,7 @@ def check(ctx):
         if rp_ is not None and rp_[0] == "phi" and rp_[1] == ("cmp", "is", fld, c(None)):
             dflt = rp_[2]
             ok_p_ = rp_[3] == fld and dflt[0] == "call" and dflt[1] == want_default[1] \
-                and kw(dflt, "eigenvalues", 0) == evals_self \
+                and kw(dflt, "eigenvalues", 0) in (evals_self, ("s", evals_self[1], c(0))) \
                 and kw(dflt, "tol", 2 if pname == "log_pdet" else 1) == ("a", SELF_, "_tol") \
                 and (pname == "rank" or kw(dflt, "rank", 1) == ("a", SELF_, "rank"))
         ctx.ob("C18.R1", pf, f"{pname}: the supplied value if there is one, otherwise derived "
